@@ -17,7 +17,7 @@ RULE = ("each trigger on each disk / parity level of small synced arrays, alone 
         "from the configuration; the lock held by another command (first command held inside its run by a shim delay at several call "
         "indices while each other command is started). Oracle: without the override sync exits non-zero and the bytes (and sizes) of "
         "every content and parity file are unchanged and no other path is created; with the override (-E, -Z, -F; restored "
-        "configuration; after the other command has ended) the same sync exits 0. distinct = (array, trigger, target, mixed?).")
+        "configuration; after the other command has ended) the same sync exits 0. The all-missing / all-rewritten triggers remove the whole tree or only files and links (directory skeleton and recorded empty directories left). distinct = (array, trigger, target, mixed?).")
 
 TRIGGERS = ["disk-missing", "disk-rewritten", "file-emptied", "parity-truncated", "blocksize-changed", "hashsize-changed", "disk-dropped-from-config", "lock-held"]
 
